@@ -44,7 +44,44 @@ def bustime_cases(dll, n):
         yield sc
 
 
+def twobam_cases(dll, n, rng):
+    """two broadcasts from two applications of ONE ECU, the second started while the first is under way, with a configured packet
+    interval close to the standard's upper limit: each broadcast keeps its own pace (>= interval, <= 200 ms when nothing else
+    is going on)"""
+    fd = dll != 'j1939-21'
+    for k in range(n):
+        iv = rng.choice([0.05, 0.1, 0.15, 0.18])
+        off = rng.choice([1000, 30000, 100000, 160000])
+        n1, n2 = (rng.choice([200, 330]), rng.choice([150, 290])) if fd else (rng.choice([30, 40]), rng.choice([20, 33]))
+        yield dict(stacks=[dict(dll=dll, max_cmdt=3, bam_iv=iv, subs=[dict(cid=1, filt=0x10), dict(cid=2, filt=0x11)], cas=[])], lat=[1], jit=[1],
+                   script=[dict(t=1000, s=0, op='send', a=[0, 0xFE, 0x31, 6, 0x10, dict(seed=21 + k, len=n1)]),
+                           dict(t=1000 + off, s=0, op='send', a=[0, 0xFE, 0x32, 6, 0x11, dict(seed=51 + k, len=n2)])],
+                   horizon=1000 + off + 12 * int(iv * 1e6) + 1_000_000, inject=[],
+                   meta=dict(kind='two-bams', dll=dll, interval=int(iv * 1e6)))
+
+
+def twobam_oracle(sc, res):
+    m = sc['meta']
+    fd = m['dll'] != 'j1939-21'
+    v = []
+    for sa in (0x10, 0x11):
+        dts = [e[0] for e in res.trace if e[2] == 'tx' and ((e[3] >> 16) & 0xFF) == (0x4E if fd else 0xEB) and (e[3] & 0xFF) == sa]
+        for a, b in zip(dts, dts[1:]):
+            if b - a < m['interval']:
+                v.append(dict(kind='bam-packets-closer-than-interval', source=sa, gap=b - a, interval=m['interval']))
+                break
+            if b - a > max(m['interval'], 200000) + 2000:
+                v.append(dict(kind='bam-packet-later-than-200ms', source=sa, gap=b - a, interval=m['interval']))
+                break
+    for js in res.job:
+        if js != 'alive':
+            v.append(dict(kind='job-thread-' + js))
+    return v
+
+
 def bustime_oracle(sc, res):
+    if sc.get('meta', {}).get('kind') == 'two-bams':
+        return twobam_oracle(sc, res)
     m = sc['meta']
     fd = m['dll'] != 'j1939-21'
     v = []
@@ -60,11 +97,11 @@ def bustime_oracle(sc, res):
 
 
 def scenario_runner(sc):
-    return scen.run(sc) if sc.get('meta', {}).get('kind') == 'bus-time' else tpconf.runner(sc)
+    return scen.run(sc) if sc.get('meta', {}).get('kind') in ('bus-time', 'two-bams') else tpconf.runner(sc)
 
 
 def scenario_oracle(sc, res):
-    return bustime_oracle(sc, res) if sc.get('meta', {}).get('kind') == 'bus-time' else oracle(sc, res)
+    return bustime_oracle(sc, res) if sc.get('meta', {}).get('kind') in ('bus-time', 'two-bams') else oracle(sc, res)
 
 
 def run(out, tier, rng, work):
@@ -104,6 +141,13 @@ def run(out, tier, rng, work):
             nb += 1
             out.add_case(scen.sc_hash(sc), True)
             for x in bustime_oracle(sc, res):
+                if x['kind'] not in worst:
+                    worst[x['kind']] = (x, sc)
+        for sc in twobam_cases(dll, 8 if tier == 'quick' else 80, rng):
+            res = scen.run(sc)
+            nb += 1
+            out.add_case(scen.sc_hash(sc), True)
+            for x in twobam_oracle(sc, res):
                 if x['kind'] not in worst:
                     worst[x['kind']] = (x, sc)
     out.extra['bus_time_runs'] = nb
